@@ -150,6 +150,14 @@ def gen_case(run_seed: int, tier: str, index: int = 0) -> dict:
         options["callback"] = True
         faults["callback_fail_at"] = r.randrange(max(1, n))
         faults["callback_exc"] = r.choice(["RuntimeError", "KeyboardInterrupt"])
+    elif fmode == "none" and st.rng("fs-faults").random() < 0.18:
+        # a file-system effect of one of the writers fails (write / flush / close of a per-worker descriptor, the kernel
+        # copy, the final rename): the caller must get the error - after all workers have stopped - or files equal to
+        # the serial save, never a silently different file
+        fr_ = st.rng("fs-faults")
+        kind = fr_.choice(["write", "close", "close", "flush", "open_w", "copy_file_range", "replace"])
+        faults["mode"] = "fs"
+        faults["fs"] = {"kind": kind, "nth": fr_.choice([0, 0, 1, 2, 3]), "errno": fr_.choice(fsseam.FAULTABLE[kind]), "mode": "raise"}
     else:
         faults["mode"] = "none" if fmode != "callback" else fmode
     sim = {
@@ -253,7 +261,7 @@ def _run(case: dict, root: str, res: dict) -> None:
     n_ext = len(_expected_external(world, options))
     largest = max([len(p) for p in world.payloads] or [0])
     acct.bound = options["max_in_flight_bytes"] + largest
-    seam = fsseam.FsSeam(sim_root, sched=sched, hide_fileno=case["sim"].get("hide_fileno", False), hide_copy_file_range=case["sim"].get("hide_cfr", False))
+    seam = fsseam.FsSeam(sim_root, sched=sched, faults=[dict(case["faults"]["fs"])] if case["faults"].get("fs") else [], hide_fileno=case["sim"].get("hide_fileno", False), hide_copy_file_range=case["sim"].get("hide_cfr", False))
     seam.cfr_cap = case["sim"].get("cfr_cap")
     faults = case.get("faults", {})
     cb = None
@@ -303,6 +311,8 @@ def _run(case: dict, root: str, res: dict) -> None:
     _inc(stats, "preempt_yields", seams.preempt_counts[1])
     _inc(stats, "threads_spawned", len(sched.threads) - 1)
     _inc(stats, "context_switches", sched.switches)
+    for f_ in seam.fired:
+        _inc(stats, f"fault_fs_{f_['kind']}_{f_['errno']}")
     if acct.max_held > options["max_in_flight_bytes"]:
         _inc(stats, "reach_oversized_admitted")
     if acct.max_concurrent_tensors >= 2:
@@ -361,11 +371,11 @@ def _run(case: dict, root: str, res: dict) -> None:
     expects_fault = faults.get("mode") in ("tensor", "two", "callback")
     if raised is not None:
         _inc(stats, "outcome_raised")
-        fault_possible = any(s.get("fail") for s in case["tensors"]) or faults.get("callback_fail_at") is not None
+        fault_possible = any(s.get("fail") for s in case["tensors"]) or faults.get("callback_fail_at") is not None or bool(seam.fired)
         ok_type = False
         e, hops = raised, 0
         while e is not None and hops < 10:
-            if isinstance(e, injected) or (isinstance(e, (OSError, MemoryError)) and "injected failure" in str(e)):
+            if isinstance(e, injected) or (isinstance(e, (OSError, MemoryError)) and ("injected failure" in str(e) or "[injected]" in str(e))):
                 ok_type = True
                 break
             e, hops = (e.__cause__ or e.__context__), hops + 1
